@@ -105,11 +105,12 @@ R01.7 the destination import path comes from modfile.ModulePath of the nearest g
 		}
 	}
 	goR011(c, r)
-	goR015(c, r)
+	goR015(c, r, "R01.5")
 	goR016(c, r)
 	goR017(c, r)
 	// qualifier bookkeeping: distinct imports never share a qualifier (shared with C15)
 	ruleAddImport(c, r, "R01.5")
+	accessorTableGuard(c, "R01.9")
 }
 
 // captureHazards implements R01.3 on one skeleton; returns the number of functions analysed.
@@ -566,12 +567,12 @@ func nodeString(n ast.Node) string {
 
 // ---------------- R01.5: in-package decision ----------------
 
-func goR015(c *Ctx, r *Repo) {
+func goR015(c *Ctx, r *Repo, rule string) {
 	ip := r.Pkg("internal")
 	info := ip.TypesInfo
 	fd := FuncDecl(ip, "NewTemplateGenerator")
 	if fd == nil {
-		c.Fail("R01.5", "NewTemplateGenerator|missing", "internal/template_generator.go", "NewTemplateGenerator not found")
+		c.Fail(rule, "NewTemplateGenerator|missing", "internal/template_generator.go", "NewTemplateGenerator not found")
 		return
 	}
 	c.Func(funcKey(ip, fd))
@@ -614,7 +615,7 @@ func goR015(c *Ctx, r *Repo) {
 		return true
 	})
 	if n != 1 || total != 1 || cond == nil {
-		c.Fail("R01.5", "inPackage|assignment", r.Pos(fd.Pos()), fmt.Sprintf("inPackage is set true at %d guarded / %d total sites, want exactly one guarded site", n, total))
+		c.Fail(rule, "inPackage|assignment", r.Pos(fd.Pos()), fmt.Sprintf("inPackage is set true at %d guarded / %d total sites, want exactly one guarded site", n, total))
 		return
 	}
 	atoms := conjuncts(cond)
@@ -649,9 +650,9 @@ func goR015(c *Ctx, r *Repo) {
 		extra = append(extra, types.ExprString(a))
 	}
 	if okName && okDir && len(extra) == 0 {
-		c.OK("R01.5", "inPackage|condition", r.Pos(cond.Pos()), types.ExprString(cond))
+		c.OK(rule, "inPackage|condition", r.Pos(cond.Pos()), types.ExprString(cond))
 	} else {
-		c.Fail("R01.5", "inPackage|condition", r.Pos(cond.Pos()), fmt.Sprintf("the in-package decision is %q; it must be exactly 'pkgName == srcPkg.Name && srcPkgFSPath.Equals(outPkgFSPath)' on the raw values: a same-directory package with a different name (e.g. foo_test) has to import the source package", types.ExprString(cond)))
+		c.Fail(rule, "inPackage|condition", r.Pos(cond.Pos()), fmt.Sprintf("the in-package decision is %q; it must be exactly 'pkgName == srcPkg.Name && srcPkgFSPath.Equals(outPkgFSPath)' on the raw values: a same-directory package with a different name (e.g. foo_test) has to import the source package", types.ExprString(cond)))
 	}
 	// srcPkgFSPath originates from the source package's first Go file's directory
 	okSrc := false
@@ -666,7 +667,7 @@ func goR015(c *Ctx, r *Repo) {
 		}
 		return true
 	})
-	c.Check(okSrc, "R01.5", "inPackage|source-dir", r.Pos(fd.Pos()), "source directory = parent of srcPkg.GoFiles[0]", "srcPkgFSPath is not the directory of the source package's files")
+	c.Check(okSrc, rule, "inPackage|source-dir", r.Pos(fd.Pos()), "source directory = parent of srcPkg.GoFiles[0]", "srcPkgFSPath is not the directory of the source package's files")
 }
 
 func conjuncts(e ast.Expr) []ast.Expr {
